@@ -6,27 +6,46 @@ open Wire Chain Producer
 
 /-! ### the header counter counts committed headers that the DA layer has not acknowledged -/
 
-/-- everything at or below the header watermark is on the DA layer -/
+/-- both watermarks lie in `[initialHeight − 1, chain height]`, and every committed height at or below the header
+watermark is on the DA layer -/
 structure W (c : Cfg) (a : ANode) : Prop where
   pinv : Inv c a.n
   low : c.initialHeight ≤ a.n.hdrWm + 1
   le : a.n.hdrWm ≤ a.n.store.height
+  dlow : c.initialHeight ≤ a.n.dataWm + 1
+  dle : a.n.dataWm ≤ a.n.store.height
   acc : ∀ h, c.initialHeight ≤ h → h ≤ a.n.hdrWm → ∃ b dh, a.n.store.getBlock h = some b ∧ b.sh.hdr.height = h ∧
     (dh, false, h) ∈ a.daBlobs
 
-theorem W_fresh (c : Cfg) (h1 : c.initialHeight = 1) : W c { n := freshNode c } :=
-  { pinv := freshNode_inv c (by omega), low := by show c.initialHeight ≤ 0 + 1; omega, le := Nat.zero_le _,
-    acc := fun h ha hb => by have : h ≤ 0 := hb; omega }
+/-- the node `NewManager` builds on an empty disk, **for every initial height ≥ 1**: both watermarks are
+`initialHeight − 1`, which is the chain height -/
+theorem W_fresh (c : Cfg) (h1 : 1 ≤ c.initialHeight) : W c { n := freshNode c } := by
+  obtain ⟨hh, _, _, _⟩ := freshDisk_facts c
+  have hht : (freshNode c).store.height = c.initialHeight - 1 := hh
+  have h0 : (freshNode c).hdrWm = wmRaise c 0 := rfl
+  have h0' : (freshNode c).dataWm = wmRaise c 0 := rfl
+  have hge := wmRaise_ge c 0
+  have hle : wmRaise c 0 ≤ c.initialHeight - 1 := by rcases wmRaise_cases c 0 with h | ⟨h, _⟩ <;> omega
+  refine ⟨freshNode_inv c h1, ?_, ?_, ?_, ?_, ?_⟩
+  · show c.initialHeight ≤ (freshNode c).hdrWm + 1; rw [h0]; exact hge.2
+  · show (freshNode c).hdrWm ≤ (freshNode c).store.height; rw [h0, hht]; exact hle
+  · show c.initialHeight ≤ (freshNode c).dataWm + 1; rw [h0']; exact hge.2
+  · show (freshNode c).dataWm ≤ (freshNode c).store.height; rw [h0', hht]; exact hle
+  · intro h ha hb
+    have : h ≤ (freshNode c).hdrWm := hb
+    rw [h0] at this; omega
 
 theorem W.step {c : Cfg} {a : ANode} (w : W c a) (act : Act) : W c (stepA c a act) := by
   cases act with
   | produce r e =>
     have hs := publish_store w.pinv r e
-    obtain ⟨w1, _⟩ := publish_wm c a.n r e
+    obtain ⟨w1, w2⟩ := publish_wm c a.n r e
     have hh : a.n.store.height ≤ (publish c a.n r e).1.store.height := by rcases hs.1 with h | h <;> omega
-    refine ⟨publish_inv w.pinv r e, ?_, ?_, ?_⟩
+    refine ⟨publish_inv w.pinv r e, ?_, ?_, ?_, ?_, ?_⟩
     · show c.initialHeight ≤ (publish c a.n r e).1.hdrWm + 1; rw [w1]; exact w.low
     · show (publish c a.n r e).1.hdrWm ≤ (publish c a.n r e).1.store.height; rw [w1]; exact Nat.le_trans w.le hh
+    · show c.initialHeight ≤ (publish c a.n r e).1.dataWm + 1; rw [w2]; exact w.dlow
+    · show (publish c a.n r e).1.dataWm ≤ (publish c a.n r e).1.store.height; rw [w2]; exact Nat.le_trans w.dle hh
     · intro h ha hb
       have hb' : h ≤ a.n.hdrWm := by rw [← w1]; exact hb
       obtain ⟨b, dh, r1, r2, r3⟩ := w.acc h ha hb'
@@ -36,9 +55,12 @@ theorem W.step {c : Cfg} {a : ANode} (w : W c a) (act : Act) : W c (stepA c a ac
     have hok := hdrOK_of_inv w.pinv w.low
     obtain ⟨new, hnew, _⟩ := hi.blobs
     have hmono : a.n.hdrWm ≤ (headersIter a s).1.n.hdrWm := hi.wmMono
+    have hdw : (headersIter a s).1.n.dataWm = a.n.dataWm := hi.frame.otherWm
     refine ⟨inv_of_same_blocks w.pinv hi.frame.blocks hi.frame.height hi.frame.lastState, ?_,
-      headersIter_wm_le a s hok w.le, ?_⟩
+      headersIter_wm_le a s hok w.le, ?_, ?_, ?_⟩
     · show c.initialHeight ≤ (headersIter a s).1.n.hdrWm + 1; have := w.low; omega
+    · show c.initialHeight ≤ (headersIter a s).1.n.dataWm + 1; rw [hdw]; exact w.dlow
+    · show (headersIter a s).1.n.dataWm ≤ (headersIter a s).1.n.store.height; rw [hdw, hi.frame.height]; exact w.dle
     · intro h ha hb
       show ∃ b dh, (headersIter a s).1.n.store.getBlock h = some b ∧ b.sh.hdr.height = h ∧
         (dh, false, h) ∈ (headersIter a s).1.daBlobs
@@ -52,9 +74,12 @@ theorem W.step {c : Cfg} {a : ANode} (w : W c a) (act : Act) : W c (stepA c a ac
     obtain ⟨items, rem, pre, hi, _⟩ := dataIter_inv a s
     obtain ⟨new, hnew, _⟩ := hi.blobs
     have hw : (dataIter a s).1.n.hdrWm = a.n.hdrWm := hi.frame.otherWm
-    refine ⟨inv_of_same_blocks w.pinv hi.frame.blocks hi.frame.height hi.frame.lastState, ?_, ?_, ?_⟩
+    have hmono : a.n.dataWm ≤ (dataIter a s).1.n.dataWm := hi.wmMono
+    refine ⟨inv_of_same_blocks w.pinv hi.frame.blocks hi.frame.height hi.frame.lastState, ?_, ?_, ?_,
+      dataIter_wm_le_inv a s w.pinv w.dlow w.dle, ?_⟩
     · show c.initialHeight ≤ (dataIter a s).1.n.hdrWm + 1; rw [hw]; exact w.low
     · show (dataIter a s).1.n.hdrWm ≤ (dataIter a s).1.n.store.height; rw [hw, hi.frame.height]; exact w.le
+    · show c.initialHeight ≤ (dataIter a s).1.n.dataWm + 1; have := w.dlow; omega
     · intro h ha hb
       show ∃ b dh, (dataIter a s).1.n.store.getBlock h = some b ∧ b.sh.hdr.height = h ∧
         (dh, false, h) ∈ (dataIter a s).1.daBlobs
@@ -65,10 +90,15 @@ theorem W.step {c : Cfg} {a : ANode} (w : W c a) (act : Act) : W c (stepA c a ac
     have hi : PassInv a (includerIter a).1 (includerIter a).2 :=
       includerPass_inv (a.n.store.height + 1) a a [] (PassInv.init a)
     have hw : (includerIter a).1.n.hdrWm = a.n.hdrWm := hi.frame.hdrWm
-    refine ⟨inv_of_same_blocks w.pinv hi.frame.blocks hi.frame.height hi.frame.lastState, ?_, ?_, ?_⟩
+    have hdw : (includerIter a).1.n.dataWm = a.n.dataWm := hi.frame.dataWm
+    have hht : (includerIter a).1.n.store.height = a.n.store.height := hi.frame.height
+    refine ⟨inv_of_same_blocks w.pinv hi.frame.blocks hi.frame.height hi.frame.lastState, ?_, ?_, ?_, ?_, ?_⟩
     · show c.initialHeight ≤ (includerIter a).1.n.hdrWm + 1; rw [hw]; exact w.low
     · show (includerIter a).1.n.hdrWm ≤ (includerIter a).1.n.store.height
-      rw [hw, show (includerIter a).1.n.store.height = a.n.store.height from hi.frame.height]; exact w.le
+      rw [hw, hht]; exact w.le
+    · show c.initialHeight ≤ (includerIter a).1.n.dataWm + 1; rw [hdw]; exact w.dlow
+    · show (includerIter a).1.n.dataWm ≤ (includerIter a).1.n.store.height
+      rw [hdw, hht]; exact w.dle
     · intro h ha hb
       show ∃ b dh, (includerIter a).1.n.store.getBlock h = some b ∧ b.sh.hdr.height = h ∧
         (dh, false, h) ∈ (includerIter a).1.daBlobs
